@@ -120,12 +120,18 @@ BuildIx(tr, ex, nss) ==
         sites == RefSites(tr, <<>>)
         es == UNION {RefSites(ex[n], <<>>) : n \in DOMAIN ex}
         sc == [g \in {s.tag : s \in scs} |-> CHOOSE s \in scs : s.tag = g]
+        \* external scopes that themselves wait for a namespace (S -> e:B -> third:C) can be given it at any
+        \* time, before or after the tree is given theirs - also their own table (a cycle across namespaces)
+        esc == {s \in scs \ tsc : \E x \in RefSites(s, <<>>) : x.ns # ""}
+        nsx == (nss \cup {x.ns : x \in es}) \ {""}
         acts == {Act("self", s.tag, "", "") : s \in tsc}
-                \cup {Act("ns", s.tag, n, T) : s \in tsc, n \in nss, T \in DOMAIN ex}
+                \cup {Act("ns", s.tag, n, T) : s \in tsc \cup esc, n \in nsx, T \in DOMAIN ex}
+        asc == {s.tag : s \in tsc \cup esc}
         objsOf(a) == IF a.op = "self" THEN <<>> ELSE Table(ex[a.table])
         near(x) == LET tb == Table(sc[x.chain[Len(x.chain)]]) IN IF x.id \in DOMAIN tb THEN tb[x.id] ELSE "?"
     IN [scopes |-> sc,
         tscopes |-> {s.tag : s \in tsc},
+        escopes |-> {s.tag : s \in esc},
         sites |-> sites,
         esites |-> es,
         near |-> [g \in {x.tag : x \in sites \cup es} |-> near(CHOOSE x \in sites \cup es : x.tag = g)],
@@ -134,8 +140,8 @@ BuildIx(tr, ex, nss) ==
         upd |-> [a \in acts |-> IF Missing(sc[a.scope], objsOf(a), a.ns) # {} THEN {}
                                 ELSE Propagate(sc[a.scope], objsOf(a), a.ns)],
         touched |-> [a \in acts |-> {x.tag : x \in {y \in RefSites(sc[a.scope], <<>>) : y.ns = a.ns}}],
-        inner |-> [g \in {s.tag : s \in tsc} |-> {i.tag : i \in ScopesIn(sc[g]) \ {sc[g]}}],
-        under |-> [g \in {s.tag : s \in tsc} |-> {x.tag : x \in RefSites(sc[g], <<>>)}],
+        inner |-> [g \in asc |-> {i.tag : i \in ScopesIn(sc[g]) \ {sc[g]}}],
+        under |-> [g \in asc |-> {x.tag : x \in RefSites(sc[g], <<>>)}],
         objs |-> [g \in {o.tag : o \in obs} |-> CHOOSE o \in obs : o.tag = g]]
 
 TreeSites == ix.sites
@@ -143,7 +149,13 @@ ExtSites == ix.esites
 TreeScopes == {ix.scopes[g] : g \in ix.tscopes}
 AllObjs == Range(ix.objs)
 ScopeByTag(g) == ix.scopes[g]
-Namespaces == {s.ns : s \in TreeSites} \ {""}
+\* the references that wait for a namespace: those of the tree and those of external scopes
+NsSites == {s \in TreeSites \cup ExtSites : s.ns # ""}
+Namespaces == {s.ns : s \in NsSites}
+\* initial links: nothing is linked but the own-namespace references of the (already constructed) external scopes
+InitLink(ixv) == [g \in DOMAIN ixv.near |->
+                    IF \E s \in ixv.esites : s.tag = g /\ s.ns = "" THEN ixv.near[g] ELSE None]
+InitTab(ixv) == [g \in {s.tag : s \in ixv.sites \cup ixv.esites} |-> "none"]
 \* the object with that ID in the NEAREST enclosing scope
 Nearest(site) == ix.near[site.tag]
 
@@ -151,8 +163,8 @@ InitState(tr, ex, nss) ==
     /\ tree = tr
     /\ ext = ex
     /\ ix = BuildIx(tr, ex, nss)
-    /\ link = [g \in DOMAIN ix.near |-> IF \E s \in ix.esites : s.tag = g THEN ix.near[g] ELSE None]
-    /\ tab = [g \in {s.tag : s \in ix.sites} |-> "none"]
+    /\ link = InitLink(ix)
+    /\ tab = InitTab(ix)
     /\ cov = {}
     /\ built = {}
     /\ hist = <<>>
@@ -161,7 +173,7 @@ InitState(tr, ex, nss) ==
 \* constructed before the scope that contains them)
 CanDo(a, blt) ==
     /\ a \in ix.acts
-    /\ IF a.op = "self" THEN ix.inner[a.scope] \subseteq blt ELSE a.scope \in blt
+    /\ IF a.op = "self" THEN ix.inner[a.scope] \subseteq blt ELSE a.scope \in blt \cup ix.escopes
     /\ ~ix.miss[a]
 
 LinkAfter(lk, a) == StepLink(lk, ix.upd[a])
@@ -188,11 +200,11 @@ Resolve(site) ==
     ELSE Table(ext[tab[site.tag]])[site.id]
 
 Lexical ==
-    \A s \in TreeSites :
+    \A s \in TreeSites \cup NsSites :
         /\ link[s.tag] \in {None, Resolve(s)}
         /\ s.tag \in cov => (link[s.tag] = Resolve(s) /\ link[s.tag] # None)
 
-ExtStable == \A s \in ExtSites : link[s.tag] = Nearest(s)
+ExtStable == \A s \in {x \in ExtSites : x.ns = ""} : link[s.tag] = Nearest(s)
 
 \* A tree rebuilt from its own description (SelfSerialize -> UnserializeScope) has had no scope constructed
 \* separately: all it gets is ONE ApplySelf on the root, which must reach every nested scope.  Its self
@@ -212,7 +224,11 @@ OtherNamespacesUntouched ==
            (s.ns # a.ns \/ a.scope \notin Range(s.chain)) => link'[s.tag] = link[s.tag]]_vars
 
 AllLinkedUnder(g, lk) == \A x \in ix.under[g] : lk[x] # None
-ValidateRefsIffAllLinked == \A g \in ix.tscopes : VR(ix.scopes[g], link) = AllLinkedUnder(g, link)
+\* per scope (the scopes of the tree and the external scopes that wait for a namespace) - and a scope's verdict
+\* speaks about the references OF THAT SCOPE only: whether the object a linked reference points to (in another
+\* scope) has unlinked references of its own does not matter
+ValidateRefsIffAllLinked ==
+    \A g \in ix.tscopes \cup ix.escopes : VR(ix.scopes[g], link) = AllLinkedUnder(g, link)
 
 Commute(a, b) == a.ns # b.ns \/ a.op = "self" \/ a.table = b.table
 OrderIndependent ==
@@ -223,8 +239,7 @@ OrderIndependent ==
           /\ \A b \in en : Commute(a, b) => LinkAfter(after[a], b) = LinkAfter(after[b], a)
 
 \* well-formed (what the judged part of the check generates): unique tags, distinct IDs per
-\* scope, roots present, self references name an ID of their nearest scope, external scopes
-\* only refer to themselves
+\* scope, roots present, self references name an ID of their nearest scope
 WellFormed(tr, ex) ==
     LET scs == ScopesIn(tr) \cup UNION {ScopesIn(ex[n]) : n \in DOMAIN ex}
         obs == ObjsIn(tr) \cup UNION {ObjsIn(ex[n]) : n \in DOMAIN ex}
@@ -241,7 +256,7 @@ WellFormed(tr, ex) ==
        /\ \A x \in sts : Len(x.chain) > 0
        /\ \A x \in sts : x.ns = "" =>
               x.id \in DOMAIN Table(CHOOSE s \in scs : s.tag = x.chain[Len(x.chain)])
-       /\ \A n \in DOMAIN ex : \A x \in RefSites(ex[n], <<>>) : x.ns = ""
+
 
 \* ------------------------------------------------------------------ raw values and Unserialize
 RStr(s) == [k |-> "str", s |-> s, items |-> <<>>]
@@ -384,9 +399,9 @@ Inline(t, env, k, X) ==
 \* every namespace has one table applied over all its references, everything is linked
 Uniform ==
     /\ built = ix.tscopes
-    /\ \A s \in TreeSites : link[s.tag] # None
-    /\ \A n \in Namespaces : Cardinality({tab[s.tag] : s \in {x \in TreeSites : x.ns = n}}) = 1
-NsTab == [n \in Namespaces |-> tab[(CHOOSE s \in TreeSites : s.ns = n).tag]]
+    /\ \A s \in TreeSites \cup NsSites : link[s.tag] # None
+    /\ \A n \in Namespaces : Cardinality({tab[s.tag] : s \in {x \in NsSites : x.ns = n}}) = 1
+NsTab == [n \in Namespaces |-> tab[(CHOOSE s \in NsSites : s.ns = n).tag]]
 ObjFn == ix.objs
 
 \* the input universe and Unser below speak about map-based objects without defaults only
